@@ -94,6 +94,8 @@ def manager_cases(draw, tier="quick", tasks=("detection", "tracking", "fp_valida
             for g in sc["gt"]:
                 g["label"] = "false_positive"
         crit = draw(range_cfg(n, narrow=True, allow_uuids=True, n_gt=len(sc["gt"])))
+        if n > 1 and draw(st.integers(0, 2)) == 0:
+            crit["perm"] = list(draw(st.permutations(list(range(n)))))
         pf = draw(st.one_of(st.none(), GEN.per_label(n, st.sampled_from([0.6, 1.2, 2.5, 0.6, 1.2, 2.5, 0.0]))))
         # track ids are unique per frame: frames are independent scenes, and a ground-truth instance never changes its
         # category between frames of a dataset (consistent multi-frame tracks are generated by checks/c05.tracking_histories)
@@ -154,6 +156,33 @@ def config_dict(d):
     return cfg
 
 
+MODE_KEY = {"CENTERDISTANCE": "center", "PLANEDISTANCE": "plane", "IOU2D": "iou2d", "IOU3D": "iou3d"}
+
+
+def configured_rows(ctx, d, scores, what, expect=True):
+    """The CONFIGURED per-label threshold row behind each Map / TrackingMetricsScore of a MetricsScore (the k-th score
+    of a matching mode belongs to the k-th row configured for that mode).  The thresholds the reference models use come
+    from the configuration descriptor, never from the library's score objects; the score objects must carry them too."""
+    seen, out = {}, []
+    for sc in scores:
+        mode = sc.matching_mode.name
+        k = seen.get(mode, 0)
+        seen[mode] = k + 1
+        rows = d["thr"].get(MODE_KEY[mode], [])
+        if k >= len(rows):
+            ctx.violate(f"{what}-unconfigured-score", f"{what}: {k + 1} scores for matching mode {mode} but only {len(rows)} threshold rows were configured")
+            out.append(None)
+            continue
+        row = [float(t) for t in rows[k]]
+        got = getattr(sc, "matching_threshold_list", None)
+        if got is not None:
+            ctx.require([float(t) for t in got] == row, f"{what}-thresholds-not-as-configured", lambda: f"{what}: {mode} score #{k} carries thresholds {list(got)}, configured per-label row {row}")
+        out.append(row)
+    for mode, key in MODE_KEY.items() if expect else ():
+        ctx.require(seen.get(mode, 0) == len(d["thr"].get(key, [])), f"{what}-score-count", lambda: f"{what}: {seen.get(mode, 0)} scores for {mode}, {len(d['thr'].get(key, []))} configured threshold rows")
+    return out
+
+
 def make_manager(d, frame=None):
     import perception_eval.manager._evaluation_manager_base as B
     from perception_eval.config import PerceptionEvaluationConfig
@@ -179,16 +208,19 @@ def crit_config(mgr, d, f):
 
     c = f["crit"]
     n = len(d["targets"])
+    # "perm": the same filter written with its labels (and every per-label list) in another order
+    perm = c.get("perm") or list(range(n))
+    P = lambda lst: [lst[k] for k in perm]  # noqa: E731
     kw = {}
     if c["kind"] == "xy":
-        kw.update(max_x_position_list=list(c["max_x"]), max_y_position_list=list(c["max_y"]))
+        kw.update(max_x_position_list=P(list(c["max_x"])), max_y_position_list=P(list(c["max_y"])))
     else:
-        kw.update(max_distance_list=list(c["max_d"]), min_distance_list=[c["min_d"]] * n)
+        kw.update(max_distance_list=P(list(c["max_d"])), min_distance_list=[c["min_d"]] * n)
     return CriticalObjectFilterConfig(
         evaluator_config=mgr.evaluator_config,
-        target_labels=list(d["targets"]),
-        min_point_numbers=list(c["min_pts"]) if c.get("min_pts") is not None else None,
-        confidence_threshold_list=list(c["conf"]) if c.get("conf") is not None else None,
+        target_labels=P(list(d["targets"])),
+        min_point_numbers=P(list(c["min_pts"])) if c.get("min_pts") is not None else None,
+        confidence_threshold_list=P(list(c["conf"])) if c.get("conf") is not None else None,
         target_uuids=list(c["uuids"]) if c.get("uuids") is not None else None,
         **kw,
     )
@@ -197,10 +229,16 @@ def crit_config(mgr, d, f):
 def pf_config(mgr, d, f):
     from perception_eval.evaluation.result.perception_frame_config import PerceptionPassFailConfig
 
+    labels, thr = list(d["targets"]), list(f["pf"]) if f["pf"] is not None else None
+    if thr is not None and f.get("pf_fp") is not None:
+        # pass/fail configuration that also names `false_positive` with its own threshold (FP validation): an estimate
+        # within that distance of an FP-labelled ground truth is an FP *with* ground truth, beyond it the GT is a TN
+        labels.append("false_positive")
+        thr.append(float(f["pf_fp"]))
     return PerceptionPassFailConfig(
         evaluator_config=mgr.evaluator_config,
-        target_labels=list(d["targets"]),
-        matching_threshold_list=list(f["pf"]) if f["pf"] is not None else None,
+        target_labels=labels,
+        matching_threshold_list=thr,
     )
 
 
